@@ -389,15 +389,7 @@ fn check_fit(out: &mut Out, st: &mut LrStats, x: &[Vec<f64>], y: &[f64], alpha: 
     out.count(&format!("search:fit:k={}", k));
     let fit = match run_fit(x, y, alpha, x) {
         Err(msg) => {
-            // finding (reported, see corpus/C09/linesearch_panic_separable_alpha0.json): without a penalty, on
-            // separable data, the objective tends to 0, the curvature pairs become rounding noise, L-BFGS hands an
-            // ascent direction to the line search and the line search panics after 1001 backtracking steps
-            if alpha == 0.0 && msg.contains("Linesearch failed to converge") {
-                out.known("lr-linesearch-panic-unpenalised", &format!("LogisticRegression::fit with alpha = 0 panicked: {} (replay: {})", msg, input));
-                out.count("search:fit:known-finding:linesearch-panic-alpha=0");
-            } else {
-                out.fail("fit_returns", &format!("panic: {}", msg), input);
-            }
+            out.fail("fit_returns", &format!("panic: {}", msg), input);
             return None;
         }
         Ok(Err(msg)) => {
@@ -425,7 +417,7 @@ fn check_fit(out: &mut Out, st: &mut LrStats, x: &[Vec<f64>], y: &[f64], alpha: 
     // see check_descent — the test itself allows an increase of c1*alpha*df0; such steps are counted, the clause
     // of the property for fits is about the final objective only and is checked above.)
     for (i, s) in fit.run.steps.iter().enumerate() {
-        let armijo = s.f_new <= s.f + 1e-4 * s.alpha * s.df0;
+        let armijo = s.f_new <= s.f + 1e-4 * s.alpha * s.df0 || (s.alpha == 0.0 && s.f_new == s.f);
         let increased = !(s.f_new <= s.f);
         if !armijo || (increased && !(s.df0 > 0.0)) {
             let mut w = input.clone();
@@ -791,7 +783,7 @@ fn bt_twin(phi: &dyn Fn(f64) -> f64, alpha: f64, f0: f64, df0: f64, third: bool,
             break;
         }
         if iteration > max_iter {
-            return None;
+            return Some((0.0, iteration, margin));
         }
         let a_tmp;
         if !third || iteration == 0 {
@@ -861,6 +853,43 @@ fn corr_linesearch(out: &mut Out, rng: &mut Rng) {
         format!("corr_linesearch {} {} {} {} {} {} {}", coq_list_f64(&cs), coq_f64(thr), coq_f64(alpha0), coq_bool(third), coq_n(max_iter), coq_f64(df0), exp),
         json!({"entry": "line_search", "coeffs": cs, "thr": if thr.is_finite() { json!(thr) } else { json!(null) }, "alpha0": alpha0, "third": third, "max_iter": max_iter}),
     );
+}
+
+/// line searches that exhaust the iteration budget (repair 78b374f: zero step, value f0, no panic):
+/// phi constant with a negative slope claimed, phi = 0 at 0 and positive elsewhere, and the same with a small budget
+fn corr_linesearch_exhaust(out: &mut Out, rng: &mut Rng) {
+    let variant = rng.below(3);
+    let c0 = *rng.pick(&[0.0, 0.0, 1.5, -3.0]);
+    let (cs, df0): (Vec<f64>, f64) = match variant {
+        0 => (vec![c0], -rng.uniform(0.1, 5.0)),                                  // constant objective, df0 < 0
+        1 => (vec![c0, 0.0, rng.uniform(0.5, 4.0)], -rng.uniform(0.1, 5.0)),      // f0 at 0, larger everywhere else
+        _ => (vec![c0, rng.uniform(0.5, 2.0)], -rng.uniform(0.1, 5.0)),           // increasing, slope claimed negative
+    };
+    let third = rng.bool();
+    let max_iter = *rng.pick(&[1000usize, 1000, 3, 0]);
+    let alpha0 = *rng.pick(&[1.0, 2.0]);
+    let f0 = cs[0];
+    let cs2 = cs.clone();
+    let phi = move |a: f64| horner(&cs2, a);
+    let ls = Backtracking::<f64> { c1: 1e-4, max_iterations: max_iter, max_infinity_iterations: 52, phi: 0.5, plo: 0.1,
+        order: if third { FunctionOrder::THIRD } else { FunctionOrder::SECOND } };
+    let dphi = |_a: f64| 0.0;
+    let input = json!({"entry": "line_search", "coeffs": cs, "thr": null, "alpha0": alpha0, "third": third, "max_iter": max_iter, "df0": df0});
+    match guard(|| ls.search(&phi, &dphi, alpha0, f0, df0)) {
+        Err(msg) => out.fail("backtracking_armijo", &format!("the line search panicked: {}", msg), input),
+        Ok(r) => {
+            // variant 0 passes the test at once only if c1*a*df0 rounds away; otherwise all three must give up
+            if !((r.alpha == 0.0 && r.f_x == f0) || (r.alpha > 0.0 && r.f_x <= f0 + 1e-4 * r.alpha * df0)) {
+                out.fail("backtracking_armijo", "neither a sufficient-decrease step nor the zero step", input.clone());
+            }
+            let exp = coq_option(Some(coq_pair(&coq_f64(r.alpha), &coq_f64(r.f_x))));
+            out.corr(
+                "line_search_budget_exhausted",
+                format!("corr_linesearch {} {} {} {} {} {} {}", coq_list_f64(&cs), coq_f64(f64::INFINITY), coq_f64(alpha0), coq_bool(third), coq_n(max_iter), coq_f64(df0), exp),
+                input,
+            );
+        }
+    }
 }
 
 fn corr_quad_trace(out: &mut Out, a: &[Vec<f64>], b: &[f64], x0: &[f64], third: bool, m: usize, max_iter: usize) {
@@ -1013,7 +1042,7 @@ fn replay(path: &str) -> i32 {
         "line_search" => {
             let cs = f64s_from_json(&inp["coeffs"]);
             let thr = inp["thr"].as_f64().unwrap_or(f64::INFINITY);
-            check_linesearch_armijo(&mut out, &cs, thr, inp["alpha0"].as_f64().unwrap_or(1.0), inp["third"].as_bool().unwrap_or(true), inp["max_iter"].as_u64().unwrap_or(1000) as usize);
+            check_linesearch_armijo_df0(&mut out, &cs, thr, inp["alpha0"].as_f64().unwrap_or(1.0), inp["third"].as_bool().unwrap_or(true), inp["max_iter"].as_u64().unwrap_or(1000) as usize, inp["df0"].as_f64());
         }
         _ => {
             // scalars / softmax correspondence cases have no search oracle of their own
@@ -1131,8 +1160,11 @@ fn spec_indexed(x: &[Vec<f64>], yi: &[usize], k: usize, coef: &[Vec<f64>], icpt:
 
 /// search oracle for the line search: a normal return satisfies the sufficient-decrease inequality
 fn check_linesearch_armijo(out: &mut Out, cs: &[f64], thr: f64, alpha0: f64, third: bool, max_iter: usize) {
+    check_linesearch_armijo_df0(out, cs, thr, alpha0, third, max_iter, None)
+}
+fn check_linesearch_armijo_df0(out: &mut Out, cs: &[f64], thr: f64, alpha0: f64, third: bool, max_iter: usize, df0_given: Option<f64>) {
     let input = json!({"entry": "line_search", "coeffs": cs, "thr": if thr.is_finite() { json!(thr) } else { json!(null) }, "alpha0": alpha0, "third": third, "max_iter": max_iter});
-    let (f0, df0) = (cs[0], cs[1]);
+    let (f0, df0) = (cs[0], df0_given.unwrap_or(if cs.len() > 1 { cs[1] } else { 0.0 }));
     let cs2 = cs.to_vec();
     let phi = move |a: f64| if a > thr { f64::INFINITY } else { horner(&cs2, a) };
     let ls = Backtracking::<f64> {
@@ -1152,7 +1184,12 @@ fn check_linesearch_armijo(out: &mut Out, cs: &[f64], thr: f64, alpha0: f64, thi
     out.count("search:line_search");
     if let Ok(r) = guard(|| ls.search(&phi, &dphi, alpha0, f0, df0)) {
         let fa = phi(r.alpha);
-        let ok = r.alpha > 0.0 && r.alpha <= alpha0 && fa == r.f_x && fa <= f0 + 1e-4 * r.alpha * df0 && (df0 > 0.0 || fa <= f0);
+        // either a positive step with sufficient decrease, or (budget exhausted) the zero step with the value f0
+        let ok = (r.alpha > 0.0 && r.alpha <= alpha0 && fa == r.f_x && fa <= f0 + 1e-4 * r.alpha * df0 && (df0 > 0.0 || fa <= f0))
+            || (r.alpha == 0.0 && r.f_x == f0);
+        if r.alpha == 0.0 {
+            out.count("search:line_search:gave-up(zero step)");
+        }
         if !ok {
             let mut w = input.clone();
             w["alpha"] = json!(r.alpha);
@@ -1160,7 +1197,7 @@ fn check_linesearch_armijo(out: &mut Out, cs: &[f64], thr: f64, alpha0: f64, thi
             out.fail("backtracking_armijo", "returned step violates 0 < alpha <= alpha0, f_x = f(alpha) or the sufficient-decrease inequality", w);
         }
     } else {
-        out.count("search:line_search:panic(max_iterations)");
+        out.fail("backtracking_armijo", "the line search panicked", input);
     }
 }
 
@@ -1197,6 +1234,9 @@ fn main() {
     }
     for _ in 0..n_ls {
         corr_linesearch(&mut out, &mut rng);
+    }
+    for _ in 0..(if a.thorough { 24 } else { 8 }) {
+        corr_linesearch_exhaust(&mut out, &mut rng);
     }
     for i in 0..n_qt {
         let n = rng.usize_in(1, 5);
